@@ -426,7 +426,24 @@ func c14PutVV(ctx context.Context, coll *DatabaseCollectionWithUser, docID strin
 			b[k] = v
 		}
 	}
-	newDoc.SetAttachments(GetBodyAttachments(body))
+	// The replication handler asks the sender only for attachment bodies it does not have: an attachment whose body is
+	// already stored for this document is verified against it and handed on as a stub carrying the new digest.
+	atts := GetBodyAttachments(body)
+	for name, v := range atts {
+		meta, _ := v.(map[string]any)
+		if meta == nil || meta["data"] == nil {
+			continue
+		}
+		data, derr := DecodeAttachment(meta["data"])
+		if derr != nil {
+			continue
+		}
+		digest := Sha1DigestKey(data)
+		if _, gerr := coll.GetAttachment(ctx, MakeAttachmentKey(AttVersion2, docID, digest)); gerr == nil {
+			atts[name] = map[string]any{"stub": true, "digest": digest, "revpos": gen, "length": len(data), "ver": AttVersion2}
+		}
+	}
+	newDoc.SetAttachments(atts)
 	newDoc.UpdateBody(b)
 	_, _, _, err := coll.PutExistingCurrentVersion(ctx, PutDocOptions{NewDoc: newDoc, RevTreeHistory: history, NewDocHLV: incoming, ISGRWrite: true,
 		ForceAllowConflictingTombstone: del, ConflictResolver: NewConflictResolver(DefaultLWWConflictResolutionType, nil)})
